@@ -464,3 +464,36 @@ def export_cycles(descs: dict[str, list[dict]], loaded: set[str] | None = None) 
         return False
 
     return cyclic([(a, b) for a, b, _ in hops]), cyclic([(a, b) for a, b, c in hops if c])
+
+
+def gen_extchain(rng: random.Random) -> tuple[dict[str, str], list[str]]:
+    """Re-export chains across 3-4 top-level packages of which only a prefix is loaded explicitly: every further hop needs
+    resolve_aliases(external=True) to pull in one more package (a package loaded *during* resolution carries aliases and
+    wildcards of its own).  Returns (files, packages in chain order)."""
+    k = rng.randint(3, 4)
+    pkgs = ["p", "q", "r", "t"][:k]
+    names = rng.sample(NAMES, rng.randint(1, 2))
+    files: dict[str, str] = {}
+    for i, pk in enumerate(pkgs):
+        lines = []
+        if i == k - 1:
+            for n in names:
+                lines.append(rng.choice([f"def {n}(): ...", f"class {n}: ...", f"{n} = 1"]))
+            if rng.random() < 0.3:
+                lines.append(f"from nowhere import {rng.choice(NAMES)} as ghost")
+        else:
+            nxt = pkgs[i + 1]
+            in_sub = rng.random() < 0.3          # the hop sits in a submodule the package wildcard-imports / re-exports
+            hop = []
+            for n in names:
+                hop.append(rng.choice([f"from {nxt} import {n}", f"from {nxt} import {n} as {n}", f"from {nxt} import *",
+                                       f"import {nxt}\nfrom {nxt} import {n}", f"from {nxt} import {n} as alias_{n}\n{n} = alias_{n}" if False else f"from {nxt} import {n}"]))
+            if in_sub:
+                files[f"{pk}/hop.py"] = "\n".join(hop) + "\n"
+                lines.append(rng.choice([f"from {pk}.hop import *", *(f"from {pk}.hop import {n}" for n in names)]))
+            else:
+                lines += hop
+            if rng.random() < 0.25:
+                lines.append(f"__all__ = {names!r}")
+        files[f"{pk}/__init__.py"] = "\n".join(lines) + "\n"
+    return files, pkgs
